@@ -44,6 +44,7 @@ import collections
 import json
 import os
 import random
+import re
 import threading
 from concurrent.futures import ThreadPoolExecutor
 
@@ -118,10 +119,7 @@ def _features(c):
                 f.add("executable-hidden-file")
             elif base.rsplit(".", 1)[-1] in ("yaml", "json", "md", "txt") and "." in base:
                 f.add("executable-" + base.rsplit(".", 1)[-1])
-            elif "lib" in comps[:-1]:
-                f.add("executable-below-lib")
-            elif any(x.startswith(".") for x in comps[:-1]):
-                f.add("executable-below-hidden-dir")
+    f |= _shape(c)
     names = c["once"] + c["atmost"]
     bases = [n.split("/")[-1] for n in names]
     if len(set(bases)) < len(bases):
@@ -152,8 +150,11 @@ def gen_cases(ctx, cfgs, binary_future=None):
     per = max(2, min(6, (os.cpu_count() or 4) // max(1, len(cfgs))))
 
     def one(i):
-        return vlib.tlc(subs[i], SPEC, MODULE, cfgs[i], workers=per, timeout=ctx.pick(240, 1500), expect_violation=False,
-                        heap=ctx.pick("2g", "6g"))
+        # quick configurations export one residue class of trees (EmitMod in the cfg); the seed picks the class
+        text = open(os.path.join(vlib.SPEC, SPEC, cfgs[i])).read()
+        mod = int(re.search(r"(?m)^\s*EmitMod\s*=\s*(\d+)", text).group(1))
+        return vlib.tlc(subs[i], SPEC, MODULE, cfgs[i], workers=per, timeout=ctx.pick(400, 1500), expect_violation=False,
+                        heap=ctx.pick("2g", "6g"), consts={"EmitRem": str(ctx.seed % mod)})
 
     with ThreadPoolExecutor(max_workers=len(cfgs)) as ex:
         rs = list(ex.map(one, range(len(cfgs))))
@@ -176,13 +177,30 @@ def gen_cases(ctx, cfgs, binary_future=None):
     return cases
 
 
+def _shape(c):
+    """Where executable files sit relative to lib/hidden sub-directories (sampling strata and coverage only)."""
+    out = set()
+    for e in c["entries"]:
+        if e["kind"] != "file" or not e["x"]:
+            continue
+        dirs = e["path"].split("/")[:-1]
+        for i, d in enumerate(dirs):
+            if d == "lib" or d.startswith("."):
+                what = "lib" if d == "lib" else "hidden-dir"
+                out.add("executable-below-%s%s" % ("nested-" if i > 0 else "", what))
+                if i + 1 < len(dirs):
+                    out.add("executable-deeper-below-" + what)
+    return out
+
+
 def sample(ctx, cases, n):
-    """Seeded stratified sample: round-robin over (domain, name of the hooks directory, bad kind, #hooks)."""
+    """Seeded stratified sample: round-robin over (domain, name of the hooks directory, bad kind, #hooks, position of
+    executable files relative to lib/hidden sub-directories), so that rare shapes are not left to chance."""
     rnd = random.Random(ctx.seed)
     strata = collections.OrderedDict()
     for c in cases:
         nh = len(c["once"]) + len(c["atmost"])
-        strata.setdefault((c["dom"], c["root"], c["kind"], min(nh, 3)), []).append(c)
+        strata.setdefault((c["dom"], c["root"], c["kind"], min(nh, 3), ",".join(sorted(_shape(c)))), []).append(c)
     for v in strata.values():
         rnd.shuffle(v)
     keys = list(strata)
@@ -201,10 +219,20 @@ def sample(ctx, cases, n):
 
 def run_cases(ctx, binary, cases):
     """Run the cases on the real code in parallel shards; returns the result records in case-id order."""
+    # cases that share the tree and the name of the hooks directory stay together and in sequence: the harness
+    # then materialises the tree once and only swaps the bad hook's script
+    cases.sort(key=lambda c: (c["root"], json.dumps(c["entries"], sort_keys=True), c["bad"], c["kind"]))
+    nshards = max(1, min(ctx.pick(8, 12), os.cpu_count() or 4, (len(cases) + 49) // 50))
+    shards = [[] for _ in range(nshards)]
+    gi, prev = -1, None
     for i, c in enumerate(cases):
         c["id"] = i
-    nshards = max(1, min(ctx.pick(8, 12), os.cpu_count() or 4, (len(cases) + 49) // 50))
-    shards = [cases[i::nshards] for i in range(nshards)]
+        k = (c["root"], json.dumps(c["entries"], sort_keys=True))
+        if k != prev:
+            gi, prev = gi + 1, k
+        shards[gi % nshards].append(c)
+    shards = [s for s in shards if s]
+    nshards = len(shards)
     subs = [_Sub(ctx) for _ in shards]
 
     def one(i):
@@ -232,13 +260,64 @@ def run_cases(ctx, binary, cases):
     return [by_id[i] for i in range(len(cases))]
 
 
+def _path_class(c, path):
+    """Label for failure signatures: which clause of the statement decides about this file (labelling only)."""
+    comps = path.split("/")
+    base = comps[-1]
+    ent = {e["path"]: e for e in c["entries"]}.get(path, {})
+    if any(d == "lib" for d in comps[:-1]):
+        return "below-lib"
+    if any(d.startswith(".") for d in comps[:-1]):
+        return "below-hidden-dir"
+    if base.startswith("."):
+        return "hidden-file"
+    if "." in base and base.rsplit(".", 1)[-1] in ("yaml", "json", "md", "txt"):
+        return "excluded-extension"
+    if ent.get("kind") == "file" and not ent.get("x"):
+        return "no-x-bit"
+    if ent.get("x") not in (None, "", "ugo"):
+        return "x-bit-" + ent["x"]
+    if base in ("lib", "X.YAML", "x.yaml.sh"):
+        return "file-named-" + base
+    if len(comps) > 1:
+        return "hook-in-" + ("libs" if "libs" in comps[:-1] else "subdir")
+    return "plain"
+
+
+def _refine(c, r):
+    """Make the harness' signature specific to the failing input class."""
+    sig = r["sig"]
+    got = r.get("got") or {}
+    if sig == "C20/hook-set":
+        exp, have = set(c["names"]), set(got.get("names") or [])
+        extra, missing = sorted(have - exp), sorted(exp - have)
+        if extra:
+            return "%s/extra/%s" % (sig, _path_class(c, extra[0]))
+        if missing:
+            return "%s/missing/%s" % (sig, _path_class(c, missing[0]))
+    if sig in ("C20/not-a-hook-executed", "C20/config-not-run", "C20/config-run-twice"):
+        counts = got.get("counts") or {}
+        hooks = set(c["once"]) | set(c["atmost"])
+        if sig == "C20/not-a-hook-executed":
+            bad = sorted(n for n in counts if n not in hooks)
+        elif sig == "C20/config-not-run":
+            bad = [n for n in c["once"] if not counts.get(n)]
+        else:
+            bad = sorted(n for n, k in counts.items() if k > 1)
+        if bad:
+            return "%s/%s" % (sig, _path_class(c, bad[0]))
+    return sig
+
+
 def verdicts(ctx, cases, results):
     sigs = collections.Counter()
-    for c, r in zip(cases, results):
+    # smallest failing tree of every signature first: that is the one reported and stored as replay
+    for c, r in sorted(zip(cases, results), key=lambda cr: (len(cr[0]["entries"]), len(json.dumps(cr[0]["entries"])), cr[0]["id"])):
         if r["ok"]:
             continue
         if r.get("sig") == "INFRA":
             raise Infra("harness could not run case %d: %s" % (c["id"], r.get("detail")))
+        r["sig"] = _refine(c, r)
         sigs[r["sig"]] += 1
         rep = {k: c[k] for k in ("root", "entries", "bad", "kind", "ok", "names", "once", "atmost", "errname")}
         ctx.fail(r["sig"], r["detail"] + " | tree: %s" % json.dumps(c["entries"]), {"case": rep, "observed": r.get("got")})
@@ -313,6 +392,7 @@ def check_c20(ctx):
     ctx.cov["case_features"] = dict(sorted(feats.items()))
     ctx.cov["failure_signatures"] = dict(sigs)
     need = ["root:lib", "root:.hooks", "dir-lib", "dir-hidden", "executable-below-lib", "executable-below-hidden-dir",
+            "executable-below-nested-lib", "executable-below-nested-hidden-dir", "executable-deeper-below-lib",
             "executable-hidden-file", "executable-yaml", "hook-in-subdir", "same-basename-in-different-dirs",
             "string-order-differs-from-component-order", "hooks-behind-the-bad-one", "hooks-before-the-bad-one",
             "file-without-x-bit", "hook-named-lib"]
